@@ -425,5 +425,5 @@ func checkMD(call target.GCall, step string, mds []MD, iv *inv) error {
 func TestGRPCScenario(t *testing.T) {
 	pand.Init()
 	r := vf.Start(t, "C20")
-	vf.Check(r, genScenCase, checkScen)
+	vf.Check(r, genScenCase, vf.LoadTolerant(25*time.Millisecond, checkScen))
 }
